@@ -10,7 +10,7 @@ import (
 
 func init() {
 	register(Property{
-		ID: "C19",
+		ID:          "C19",
 		Explanation: "Decided statically: A5 every index/slice expression in pkg/camelcase (Split, makeCase and the converter closures) is bounded by a dominating length guard, a loop bound on the same base, or the checked non-empty-group invariant of Split's accumulator (groups are created non-empty, only the fix-up statement shrinks a group, after its last read, at the increasing loop index); R1 in Split's classification loop every path of an iteration appends the rune to exactly one group, the loop ranges over the string itself and runs only for valid UTF-8 (the invalid case returns the input whole), and the result loop drops only empty groups; R2 the converters write no package-level state and build the stateful x/text Caser inside the per-call closure. A5 also covers count arguments that panic when negative (Builder.Grow, strings.Repeat, make): they must be non-negative by construction (lengths, constants, sums/products, differences under a dominating length guard). A5 is decided on linear index forms (single-definition locals replaced by their definition when nothing they mention changes in between); the group-invariant tactic compares read and shrink index as offsets from the loop variable. R2 also: no function literal of the package writes - by assignment or a mutating sync method - a variable of the function that made it (state that outlives a call of a converter). R2 also: mutating methods of package-level sync.Map/sync.Pool values are writes of package-level state. NOT decided: concat(Split(s)) == s as an equation over all strings (R1 is its structural necessary condition); totality of third-party callees (x/text/cases).",
 		Assumptions: commonAssumptions,
 		Run:         runC19,
@@ -318,8 +318,10 @@ func c19R1(p *core.Program, r *core.Report, split *core.Func) {
 		r.Unknown(rule, split, "one append per rune", loop.Pos(), "loop blocks not found")
 	} else {
 		_, skip := g.Reach(bodyEntry, true, cfgxQuery{
-			Target: func(q cfgxPoint) bool { return q.B == head || (q.B.Stmt == ast.Stmt(loop) && q.B.Kind == kindRangeDone) },
-			Cut:    func(q cfgxPoint) bool { return q.Node() != nil && isStore(q.Node()) },
+			Target: func(q cfgxPoint) bool {
+				return q.B == head || (q.B.Stmt == ast.Stmt(loop) && q.B.Kind == kindRangeDone)
+			},
+			Cut: func(q cfgxPoint) bool { return q.Node() != nil && isStore(q.Node()) },
 		})
 		r.Check(!skip, rule, split, "every rune is appended to a group", loop.Pos(),
 			"every path of an iteration executes an append that stores the rune", "an iteration can end without appending the rune to any group: the rune is lost")
